@@ -2117,7 +2117,7 @@ def laplacian_regularizer(weights, lattice_sizes, l1=0.0, l2=0.0):
     Laplacian regularization loss.
   """
   if not l1 and not l2:
-    return 0.0
+    return tf.constant(0.0, shape=[], dtype=weights.dtype)
 
   rank = len(lattice_sizes)
   # If regularization amount is given as single float assume same amount for
